@@ -116,6 +116,15 @@ CHECKS = {
             'corners and constant depth limits. Spherical worlds are shifted by every longitude offset of the alphabet, including ones carrying features across +-180 and to longitudes near +-360, and queried through L, L+360 and L-360.',
             'Probes within 0.1 m / 1e-6 degree of a tag / composition change or on a temperature jump are skipped and counted. One known finding (slab / fault trench written with longitudes outside (-180,180]) is pinned by a reference output.',
             'DESIGN.md section 3 C08'),
+    'C10': ('exploration', 'E1',
+            'bounded exhaustive enumeration: full product {slab, fault} x {1,2} segments x placement of each model kind in {feature, section, segment} (3^4) x every subset of coordinates with an explicit section (2^n), differential oracle between layouts; and {slab, fault} x coordinate count x overridden coordinate x 8 override kinds with section weights observed through marker compositions',
+            'Every re-layout of one logical world (models written at the feature, repeated in section entries for any subset of coordinates, or written into every segment; an explicitly modelled second segment keeps its own model) '
+            'is built and compared bit-for-bit with the feature-level layout on a point lattice. For the section statement every coordinate gets its own section; a classifier world with the same trench paints composition j in '
+            'section j, which makes the interpolation weights of every probe observable through the public API: weights must be convex and confined to two adjacent sections; thickness, top truncation and length (via membership and the public '
+            'distance-to-plane query), uniform temperatures, compositions and additive (operation add) models must be the weighted combination; overriding thickness / length / top truncation / temperature / composition / dip of coordinate k '
+            'must leave every probe with zero weight on section k bit-identical.',
+            'Gently bent trenches with 2..4|5 coordinates, one or two segments; uniform and linear models. Probes within 1 mm of an extent limit are skipped and counted.',
+            'DESIGN.md section 3 C10'),
 }
 NOT_YET = {}
 
